@@ -214,7 +214,7 @@ pub fn run(args: &Args) {
         report.finish();
     }
     report.run_regressions(|input| check(&from_json(input)));
-    let cases = args.tier.pick(40_000, 2_000_000);
+    let cases = args.tier.pick(400_000, 4_000_000);
     crate::drive(
         &report,
         "excerpt",
